@@ -10,40 +10,40 @@
    error on a READ rpc (listdatastore, listsendpays, waitsendpay) — the code turns wait_payment's error into a failed
    payment, so a Fail can go out while a part is pending; [hist_wf] forbids exactly those events and nothing else. *)
 From Tramp Require Import Model.Base Model.Fee Model.Classify Model.Node Model.Provider Model.ProviderSys Model.Sys.
-From Tramp Require Import Proofs.SysBasics Proofs.SysShape Proofs.SysTheorems Proofs.SysReach Proofs.SysCalls Proofs.SysNode Proofs.SysSafety.
+From Tramp Require Import Proofs.SysBasics Proofs.SysShape Proofs.SysTheorems Proofs.SysReach Proofs.SysCalls Proofs.SysNode Proofs.SysSafety Proofs.SysLive.
 
 (* every Fail response to a held HTLC is given at a moment when every outgoing part has failed (none pending, none
    complete) and no pay command runs — stronger than the statement: it does not even need an attempt to exist *)
 Theorem C02_fail_only_when_nothing_live : forall c n t0 h0 a0 evs ev h m,
-  node_ok n -> hist_wf c (sys_start n t0 h0 a0) evs ->
+  node_ok n -> hist_wf true c (sys_start n t0 h0 a0) evs ->
   let s := after c n t0 h0 a0 evs in
   In (OResp h (Fail m)) (snd (step c s ev)) ->
   all_failed (parts (nd s)) /\ payrun (nd s) = 0.
 Proof.
   intros c n t0 h0 a0 evs ev h m Hn Hwf s Hin.
-  exact (fail_only_when_quiet c s ev h m (after_wreach c n t0 h0 a0 evs Hn Hwf) Hin).
+  exact (fail_only_when_quiet true c s ev h m eq_refl (after_wreach true c n t0 h0 a0 evs Hn Hwf) Hin).
 Qed.
 
 (* while a part is pending — before or after any number of restarts — no held HTLC is failed *)
 Theorem C02_held_while_pending : forall c n t0 h0 a0 evs ev h m pid,
-  node_ok n -> hist_wf c (sys_start n t0 h0 a0) evs ->
+  node_ok n -> hist_wf true c (sys_start n t0 h0 a0) evs ->
   let s := after c n t0 h0 a0 evs in
   nth_error (parts (nd s)) pid = Some PPend -> ~ In (OResp h (Fail m)) (snd (step c s ev)).
 Proof.
   intros c n t0 h0 a0 evs ev h m pid Hn Hwf s Hp Hin.
-  destruct (fail_only_when_quiet c s ev h m (after_wreach c n t0 h0 a0 evs Hn Hwf) Hin) as (Haf & _).
+  destruct (fail_only_when_quiet true c s ev h m eq_refl (after_wreach true c n t0 h0 a0 evs Hn Hwf) Hin) as (Haf & _).
   specialize (Haf pid _ Hp). discriminate.
 Qed.
 
 (* once a part has completed, no HTLC of the hash is ever failed again, whatever happens later (restarts included):
    every answer from then on is a settle — with a key of this hash, by C01 *)
 Theorem C02_never_failed_after_completion : forall c n t0 h0 a0 evs evs' ev p h m,
-  node_ok n -> hist_wf c (sys_start n t0 h0 a0) (evs ++ evs') ->
+  node_ok n -> hist_wf true c (sys_start n t0 h0 a0) (evs ++ evs') ->
   has_done p (parts (nd (after c n t0 h0 a0 evs))) ->
   ~ In (OResp h (Fail m)) (snd (step c (after c n t0 h0 a0 (evs ++ evs')) ev)).
 Proof.
   intros c n t0 h0 a0 evs evs' ev p h m Hn Hwf Hd Hin.
-  destruct (fail_only_when_quiet c _ ev h m (after_wreach c n t0 h0 a0 (evs ++ evs') Hn Hwf) Hin) as (Haf & _).
+  destruct (fail_only_when_quiet true c _ ev h m eq_refl (after_wreach true c n t0 h0 a0 (evs ++ evs') Hn Hwf) Hin) as (Haf & _).
   apply (has_done_not_all_failed p _) in Haf; [exact Haf|].
   unfold after in *.
   assert (R : forall l1 l2 s0, fst (run c s0 (l1 ++ l2)) = fst (run c (fst (run c s0 l1)) l2)).
@@ -51,6 +51,15 @@ Proof.
     destruct (step c s0 e) as [s1 o]. specialize (IH l2 s1). destruct (run c s1 (r ++ l2)) as [sa oa]. destruct (run c s1 r) as [sb ob]. cbn [fst] in *. exact IH. }
   rewrite R. apply has_done_run. exact Hd.
 Qed.
+
+(* ... and they ARE settled: from any reachable state in which a part has completed, every held HTLC of the hash is
+   settled along a finite crash-free continuation by contract-respecting events (the node keeps answering) — with a key
+   of this hash by C01. "Settled with its preimage if it completes", across any number of earlier restarts. *)
+Theorem C02_completed_is_settled : forall c n t0 h0 a0 evs en h p0,
+  node_ok n -> hist_wf true c (sys_start n t0 h0 a0) evs ->
+  let s := after c n t0 h0 a0 evs in
+  has_done p0 (parts (nd s)) -> entry_ (pl s) = Some en -> In h (listeners en) -> Settled c (hid h) s.
+Proof. intros c n t0 h0 a0 evs en h p0 Hn Hwf. exact (completed_is_settled c _ en h p0 (after_wreach true c n t0 h0 a0 evs Hn Hwf)). Qed.
 
 (* the restart path: replayed HTLCs of a Pending record are settled with the interrupted attempt's preimage when it
    completes (here: found complete), and failed only after every part of it is known to have failed *)
